@@ -21,8 +21,8 @@ class Plugin(HistPlugin):
             'writes; model vs implementation after every step, plus the laws of Spec/UpdateLaws.v (frame, '
             'per-operator result, replacement) on every document that changed. Non-trivial = an update '
             'changed a document; distinct by canonical JSON.')
-    FINDING_BITS = 2
-    UNDECIDED_BITS = 1 | 4
+    FINDING_BITS = 2 | 8 | 16 | 32 | 128
+    UNDECIDED_BITS = 1 | 4 | 64
 
     def gen_case(self, rng, i, tier):
         if rng.random() < 0.3:
